@@ -20,7 +20,7 @@ func GenProject(r *core.Rng, flavour string) Project {
 	// in some projects two modules have import paths that differ only in '/' vs '_'
 	// (q/k_v and q/k/v): whatever is derived from the path must keep them apart the
 	// same way in every compile
-	clash := n >= 3 && r.Chance(1, 5)
+	clash := n >= 3 && r.Chance(1, 12)
 	name := func(i int) string {
 		if i == 0 {
 			return "main"
